@@ -179,6 +179,8 @@ def cases_c05(rng, thorough):
         cases.append(mux_case([G.op_roll(w, s, [])], G.key_stream(0, G.ints([i % 7 for i in range(n)]))))
     cases += shared_inner_cases(rng, 24 if thorough else 8,
                                 lambda r, inn: G.op_roll(r.randint(1, 3), r.randint(1, 3), inn))
+    cases += multi_source_cases(rng, 12 if thorough else 4, mk_pipe=lambda r: [G.op_roll(
+        r.randint(1, 3), r.randint(1, 3), r.choice([[], [G.op_agg('sum', True)]]))])
     # a feedback loop that pushes the next item when a (tumbling) window completes
     for w in (1, 2, 3):
         for inn in ([FB_DONE], [FB_DONE, G.op_simple('to_list')]):
@@ -237,6 +239,8 @@ def cases_c04(rng, thorough):
                                              rng.choice(variants))], G.ints(xs)))
     cases += shared_inner_cases(rng, 24 if thorough else 8,
                                 lambda r, inn: G.op_group_by('modc', r.choice([2, 3]), inn))
+    cases += multi_source_cases(rng, 12 if thorough else 4, mk_pipe=lambda r: [G.op_group_by(
+        'modc', r.choice([2, 3]), r.choice([[], [G.op_simple('to_list')], [_scan_add()]]))])
     cases += feedback_cases(rng, [[G.op_group_by('modc', 2, [])], [G.op_group_by('id', 0, [_scan_add()])],
                                   [G.op_group_by('modc', 3, [G.op_simple('lag', n=1)])]], 8 if thorough else 3)
     return cases
@@ -294,6 +298,15 @@ def cases_c06(rng, thorough):
         cases.append(src_case([G.op_split('divc', 2, [G.op_simple('to_list')], 'str')], G.ints(xs)))
     cases += shared_inner_cases(rng, 24 if thorough else 8,
                                 lambda r, inn: G.op_split('divc', r.choice([2, 3]), inn))
+    # an item that fails upstream: its error event passes through split (and round its inner
+    # pipeline); the runs are those of the sequence without that item
+    for _ in range(40 if thorough else 12):
+        inner = rng.choice([[G.op_simple('ignore')], [G.op_simple('ignore'), G.op_simple('to_list')],
+                            [G.op_simple('ignore'), {'op': 'count', 'reduce': True}]])
+        pipe = [G.op_map('failIf', rng.choice([1, 2, 3])), G.op_split('divc', rng.choice([2, 3]), inner),
+                G.op_simple('ignore')]
+        lts = rand_lifetimes(rng, rng.choice([1, 2]), 9, vals=range(6))
+        cases.append(mux_case(pipe, G.schedule(rng, lts)))
     cases += feedback_cases(rng, [[G.op_split('divc', 2, [])], [G.op_split('modc', 2, [_scan_add()])],
                                   [G.op_split('divc', 3, [], 'tuple')]], 8 if thorough else 3)
     return cases
@@ -336,7 +349,7 @@ def cases_c07(rng, thorough):
             space = rng.sample(space, 400 if thorough else 60)
         for gf in space:
             cases.append(mux_case([op], G.key_stream(rng.choice([0, 2]), ts_items(gf)),
-                                  timescale=rng.choice([None, 'datetime'])))
+                                  timescale=rng.choice([None, 'datetime', 'datetime-days', 'datetime-ms'])))
     for _ in range(400 if thorough else 100):    # longer, interleaved keys, to_list
         a, i, cl, inc = rng.choice(cfgs)
         inner = rng.choice([[], [G.op_simple('to_list')], [{'op': 'count', 'reduce': True}]])
@@ -348,11 +361,17 @@ def cases_c07(rng, thorough):
                       for _ in range(rng.randint(0, 9))]
                 lts.append((idx, ts_items(gf)))
         pipe = [op] if rng.random() < 0.6 else [G.op_group_by('fstmodc', 2, [op])]
-        cases.append(mux_case(pipe, G.schedule(rng, lts), timescale=rng.choice([None, 'datetime'])))
+        cases.append(mux_case(pipe, G.schedule(rng, lts),
+                              timescale=rng.choice([None, 'datetime', 'datetime-days', 'datetime-ms'])))
     cases += shared_inner_cases(
         rng, 24 if thorough else 8,
         lambda r, inn: G.op_time_split(r.choice([-1, 2, 3]), r.choice([-1, 1, 2]), True, r.random() < 0.5, inn),
         items=lambda r: ts_items([(r.choice([0, 1, 1, 2, 3]), r.random() < 0.3) for _ in range(r.randint(0, 8))]))
+    cases += multi_source_cases(
+        rng, 12 if thorough else 4,
+        mk_pipe=lambda r: [G.op_time_split(r.choice([-1, 2, 3]), r.choice([1, 2]), True, r.random() < 0.5,
+                                           r.choice([[], [G.op_simple('to_list')]]))],
+        items=lambda r: ts_items([(r.choice([0, 1, 1, 2, 3]), r.random() < 0.3) for _ in range(r.randint(0, 7))]))
     cases += feedback_cases(
         rng, [[G.op_time_split(2, -1, False, True, [])], [G.op_time_split(-1, 1, False, True, [])],
               [G.op_time_split(3, 2, False, True, [{'op': 'count', 'reduce': False}])]], 8 if thorough else 3,
@@ -534,6 +553,8 @@ def cases_c09(rng, thorough):
         # re-entrant delivery (the state is written before the running value is emitted)
         if op['op'] != 'dist' and not (op['op'] == 'mean' and op['reduce']):
             cases += feedback_cases(rng, [[op]], 4 if thorough else 1)
+    cases += multi_source_cases(rng, 16 if thorough else 5, mk_pipe=lambda r: [r.choice(
+        [o for o in scan_ops() if o['op'] not in ('dist', 'mean', 'to_array') and not (o['op'] == 'scan' and o['f']['n'] == 'failAdd')])])
     cases += feedback_cases(rng, [[_scan_add(), G.op_simple('lag', n=1)],
                                   [G.op_map('modc', 2), G.op_simple('duc', f=fn('id')), {'op': 'count', 'reduce': False}]],
                             8 if thorough else 3)
@@ -821,6 +842,15 @@ def cases_c03(rng, thorough):
                                for _ in range(rng.randint(0, 7))])) for idx in rng.sample([0, 2], 2)]
         cases.append(mux_case([op], G.schedule(rng, lts)))
     cases += multi_source_cases(rng, 40 if thorough else 10)
+    # sources that deliver from inside subscribe() (no trampoline between the subscription and
+    # the first item): the root key must exist before its first item
+    for _ in range(40 if thorough else 12):
+        pipe = rng.choice([[G.op_scan('add', I(0))], [G.op_roll(2, 1, [G.op_simple('last')])],
+                           [G.op_group_by('modc', 2, [{'op': 'count', 'reduce': True}])], [G.op_map('addc', 1)],
+                           [G.op_split('divc', 2, [G.op_simple('to_list')])], []])
+        items = G.ints([rng.randint(0, 4) for _ in range(rng.randint(0, 6))])
+        cases.append(src_case(pipe, items, source=rng.choice(['sync', 'immediate']),
+                              root=rng.choice(['store', 'store', 'multiplex']) if pipe in ([], [G.op_map('addc', 1)]) else 'store'))
     # two chained store sections with a store manager each (the state ids of the second
     # section address the second store)
     for _ in range(60 if thorough else 16):
@@ -925,16 +955,22 @@ def cases_c02(rng, thorough):
     return cases
 
 
-def multi_source_cases(rng, n):
+def multi_source_cases(rng, n, mk_pipe=None, items=None):
     """several pipelines on the sources of one with_store(sources=[...]): shared store
-    manager and state topology, events of the sources interleaved"""
+    manager and state topology, events of the sources interleaved.  mk_pipe(rng): the
+    pipeline of one source (default: a random typed pipeline); items(rng): the items of one
+    key lifetime (default: integers)"""
     cases = []
     for _ in range(n):
         k = rng.choice([2, 2, 3])
-        pipes = [G.gen_pipe(rng, 'int', rng.choice([1, 2]), rng.choice([0, 1, 1]))[0] for _ in range(k)]
+        pipes = [mk_pipe(rng) if mk_pipe else G.gen_pipe(rng, 'int', rng.choice([1, 2]), rng.choice([0, 1, 1]))[0]
+                 for _ in range(k)]
         streams = []
         for si in range(k):
-            lts = rand_lifetimes(rng, rng.choice([1, 2]), 6, reuse=0.3)
+            if items is None:
+                lts = rand_lifetimes(rng, rng.choice([1, 2]), 6, reuse=0.3)
+            else:
+                lts = [(idx, items(rng)) for idx in rng.sample([0, 1, 3], rng.choice([1, 2]))]
             streams.append([(si, e) for e in G.schedule(rng, lts)])
         schedule = []
         pos = [0] * k
@@ -1014,7 +1050,19 @@ def extra_c10(V, rng, thorough, stats):
             if op['op'] in ('first', 'last') and not xs:
                 continue            # RxPY raises on an empty sequence by design
             cases.append(([op], list(xs)))
-    judge_plain(V, 'C10', plain_sem_traces(cases), stats)
+    traces = plain_sem_traces(cases)
+    # one piped observable subscribed again after a first subscriber raised while the items
+    # were being delivered to it (an aborted first pass must leave nothing behind)
+    for (pipe, items) in rng.sample(cases, min(len(cases), 120 if thorough else 40)):
+        if not items:
+            continue
+        r = M.run_plain_after_abort(pipe, items, rng.randint(1, max(1, len(items))))
+        if r['end'] == 'error' and r.get('errtype') in ('SequenceContainsNoElementsError', 'ZeroDivisionError'):
+            continue
+        traces.append({'pipe': pipe, 'modeled': True, 'oracle': 'plain-sem',
+                       'groups': [{'items': items, 'mux': [], 'muxerr': 0, 'plain': [o['v'] for o in r['out']],
+                                   'plainend': r['end'], 'plainerr': 0 if r['end'] != 'error' else len(items)}]})
+    judge_plain(V, 'C10', traces, stats)
 
 
 def extra_c09(V, rng, thorough, stats):
